@@ -61,6 +61,18 @@ def run(ctx):
         inputs.append(frontend.type_mutate(rng, src))
     inputs += frontend.test_snippets()
     inputs += frontend.empty_value_programs()
+    # every placement of the flavour-sensitive constructs (the C06 enumeration, sampled): accepted or diagnosed, never a crash
+    from props import C06
+    import itertools as _it
+    placements = []
+    for flavor in ('ordinary', 'you', 'defeat'):
+        for sd in range(3):
+            for sw in _it.product(C06.S_WRAP, repeat=sd):
+                for leaf in C06.LEAVES:
+                    placements.append(C06.build(flavor, sw, (), leaf).replace('empty g()', 'empty g()').replace(' }', ' }', 1)
+                                      + '\nempty f() {} empty @y() {} empty !d() {} bool c = true; int a = 1; int b = 2; int[] arr = [1];\nempty @is_you() { %s }'
+                                      % {'ordinary': 'g();', 'you': '@g();', 'defeat': 'try { !g(); } undo { }'}[flavor])
+    inputs += rng.sample(placements, min(len(placements), ctx.budget(500, 3000)))
     for cp in (0x110000, 0xd800, 0x7fffffff, 0x80000000, 2 ** 32, 2 ** 63, 2 ** 64, 16 ** 40):
         inputs += ['empty @is_you() { write("\\u{%x}"); }' % cp, "empty @is_you() { write('\\u{%X}'); }" % cp]
     inputs += ['', '\n', 'empty @is_you() {}', 'empty @is_you(bool b) {}', 'empty @is_you(int[] a, int[] b) {}', 'int @is_you() { return 1; }',
